@@ -151,6 +151,7 @@ class V3Style:
     split: str = "none"  # none | random | multi | every:<k>
     split_lines: str = "atoms+bonds"  # which logical lines may be split
     star: bool = False  # encode some bonds via a star atom + ENDPTS
+    star_all: bool = False  # bundle ALL bonds of the chosen centre (long ENDPTS lists)
     header: list | None = None  # three header lines
     trailing_blocks: bool = False
     after_end: str = ""
@@ -244,9 +245,11 @@ def render_v3000(mol: Mol, style: V3Style | None = None, rng: random.Random | No
             if not by_centre:
                 break
             keys = sorted(by_centre)
-            (centre, t) = rng.choice(keys)
+            (centre, t) = max(keys, key=lambda kk: len(by_centre[kk])) if style.star_all else rng.choice(keys)
             group = by_centre[(centre, t)]
-            k = rng.randint(1, len(group))
+            k = len(group) if style.star_all else rng.randint(1, len(group))
+            if k >= 10:
+                obs["star_endpoints_ge_10"] = obs.get("star_endpoints_ge_10", 0) + 1
             chosen = rng.sample(group, k)
             for bi, _ in chosen:
                 plain_bond_ids.remove(bi)
